@@ -416,7 +416,7 @@ def random_config(decl, rng: random.Random) -> Config:
 
 def random_cases(ids: IdGen, tier: str, seed: int):
     rng = random.Random(seed * 7919 + 17)
-    n = 64 if tier == "quick" else 640
+    n = 192 if tier == "quick" else 960
     cases = []
     for i in range(n):
         r = REPR_ORDER[(i + seed) % len(REPR_ORDER)] if i < 24 else rng.choice(REPR_ORDER)
